@@ -11,6 +11,7 @@ import Driver.CliH
 import Driver.DbgH
 import Driver.Edit
 import Driver.CmdProto
+import Driver.Asm
 open Lace Lace.Driver
 
 /-- `X02 stackOn minimal instr <machine> inp-hex`
@@ -69,6 +70,8 @@ def handle (line : String) : String :=
   | "K20" :: rest => Lace.Driver.Edit.handleK20 rest
   | "L14" :: rest => handleL14 rest
   | "R14" :: rest => handleR14 rest
+  | "A01" :: rest => handleA01 rest
+  | "A19" :: rest => handleA19 rest
   | _ => "bad-request"
 
 partial def loop (h : IO.FS.Stream) (out : IO.FS.Stream) : IO Unit := do
